@@ -296,36 +296,30 @@ def rule_identity(ctx):
     # I1
     eqs = [b for b in F.bodies.values() if b.impl_trait == 'pie::trait_object::base::EqObj' and b.name == 'eq_any']
     R.floor('I1', 'eq_any implementations', len(eqs), 1, props=P)
+    import absint
     for b in eqs:
-        dcs = b.find_calls(lambda c: c.qname == 'dyn std::any::Any::downcast_ref')
-        good = len(dcs) == 1 and dcs[0].gargs and dcs[0].gargs[0] == (b.impl_self or '')
-        why = 'eq_any does not downcast the other value to Self'
-        if good:
-            dc = dcs[0]
-            good = all(o.kind == 'arg' and o.key == 2 for o in b.orig_operand(dc.args[0]))
-            why = 'the value downcast is not the `other` argument'
-            rets = b.orig_local(0)
-            for o in rets:
-                if o.kind == 'const':
-                    if o.key != '0':
-                        # a constant true must not be returned
-                        good = False
-                        why = 'eq_any can return a constant true'
-                elif o.kind == 'call':
-                    c = b.calls[o.key]
-                    a = [b.orig_operand(x) for x in c.args]
-                    if not (c.qname == 'std::cmp::PartialEq::eq' and len(a) == 2 and all(q.kind == 'arg' and q.key == 1 for q in a[0]) and ctx.base_call_bbs(a[1]) == {dc.bb}):
-                        good = False
-                        why = 'the answer is not `self == downcast(other)` (origin %s)' % c.qname
-                    else:
-                        req = b.edges_required_for(c.bb)
-                        if not any(gd.kind == 'enum' and gd.variants() == frozenset(['Some']) and dc.bb in ctx.base_call_bbs(gd.origins) for gd in req):
-                            good = False
-                            why = 'the comparison is not guarded by a successful downcast'
-                else:
-                    good = False
-                    why = 'unexpected answer origin %s' % b.describe_origin(o)
-        R.ob('I1-eq-any', b.path, good, 'eq_any is true only for a value of the same concrete type that compares equal' if good else why, ctx.where(b), props=P)
+        # semantic: evaluate eq_any(self = x, other) for the three shapes of `other`
+        cases = [('same type, equal value', ('any', 'Self', ('atom', 'x')), True), ('same type, different value', ('any', 'Self', ('atom', 'y')), False),
+                 ('different type, identical representation', ('any', 'Other', ('atom', 'x')), False)]
+        ok = True
+        why = ''
+        dc_ok = all(c.gargs and c.gargs[0] == (b.impl_self or '') for c in b.find_calls(lambda c: c.qname == 'dyn std::any::Any::downcast_ref'))
+        for name, other, want in cases:
+            try:
+                r = absint.evaluate(F, b, [('atom', 'x'), other])
+            except absint.Undecided as e:
+                ok = False
+                why = 'UNDECIDED (%s): %s' % (name, e)
+                break
+            if r != ('bool', want):
+                ok = False
+                why = 'eq_any answers %s for a value of %s (must be %s)' % (r[1] if r[0] == 'bool' else r, name, want)
+                break
+        if ok and not dc_ok:
+            ok = False
+            why = 'the downcast is not to Self'
+        R.ob('I1-eq-any', b.path, ok, 'eq_any is true exactly for a value of the same concrete type that compares equal (3 shapes evaluated)' if ok else why, ctx.where(b), props=P,
+             status=None if ok or not why.startswith('UNDECIDED') else 'UNDECIDED')
     # I2 dyn PartialEq / Hash impls delegate
     n = 0
     for b in F.bodies.values():
